@@ -407,6 +407,29 @@ func unassignChecksReserved(p *fg.Parsed, fd *ast.FuncDecl) bool {
 	return guard >= 0 && free > guard
 }
 
+// createFloatingIP hands the error of the Create call back unconditionally (no Get / Update / take-over on AlreadyExists):
+//   if _, err := ci.client…FloatingIPs().Create(…); err != nil { return err }     and no other client call in the function
+func createReturnsCreateError(p *fg.Parsed, fd *ast.FuncDecl) bool {
+	ok := false
+	ast.Inspect(fd.Body, func(x ast.Node) bool {
+		f, is := x.(*ast.IfStmt)
+		if !is || f.Init == nil || !strings.Contains(p.Src(f.Init), ".Create(") {
+			return true
+		}
+		if norm(p.Src(f.Cond)) == "err != nil" && f.Else == nil && len(f.Body.List) == 1 && norm(p.Src(f.Body.List[0])) == "return err" {
+			ok = true
+		}
+		return true
+	})
+	t := p.Src(fd.Body)
+	for _, other := range []string{".Get(", ".Update(", ".Patch(", ".Delete(", "updateFloatingIP(", "IsAlreadyExists"} {
+		if strings.Contains(t, other) {
+			ok = false
+		}
+	}
+	return ok && strings.Count(t, "ci.client") == 1
+}
+
 func intersectionSeed(p *fg.Parsed, fd *ast.FuncDecl) bool {
 	res := false
 	ast.Inspect(fd.Body, func(x ast.Node) bool {
@@ -556,6 +579,12 @@ func gen(repo string) (map[string]string, error) {
 	def("unassignEventChecksReserved", unassignChecksReserved(sc, fds["handleFIPUnassign"]),
 		"handleFIPUnassign only releases a cached record which still carries the reserved label")
 	def("handlersMakeNoStoreCall", noStore, "handleFIPAssign / handleFIPUnassign only touch the caches")
+	cfd, err := sc.Fn("crdIpam", "createFloatingIP")
+	if err != nil {
+		return nil, err
+	}
+	def("createReturnsCreateError", createReturnsCreateError(sc, cfd),
+		"createFloatingIP returns the error of the Create call unconditionally: an existing object is never fetched or taken over")
 	ufd, err := sc.Fn("crdIpam", "updateFloatingIP")
 	if err != nil {
 		return nil, err
